@@ -133,6 +133,11 @@ func runC08(c *core.Ctx) {
 		if k >= ncalls {
 			return
 		}
+		if k > 0 && t.Chance(1, 12) && opts.toggle(t) {
+			opts.apply(primary) // an option flipped on the live payloader (and on its shadow)
+			opts.apply(shadow)
+			c.Probe("option-toggled-on-live-payloader")
+		}
 		mtu := drawMTU(t, opts)
 		if mtu < 0 {
 			mtu = 0
@@ -150,9 +155,26 @@ func runC08(c *core.Ctx) {
 		if t.Chance(1, 2500) {
 			icls = 4 // jumbo: more than 64 KiB of input, at a tiny or a large MTU
 		}
+		if mtu > 2000 && t.Chance(1, 4) {
+			genMTU = mtu // structured input sized for a large MTU: big units aggregate, boundaries of 16-bit sizes
+			c.Probe("input-sized-for-large-mtu")
+		}
 		switch icls {
 		case 0:
 			media = gen.next(t, genMTU)
+			if (kind == kAV1Dep || kind == kAV1Pkt) && mtu >= 16 && t.Chance(1, 5) {
+				measure := func(b []byte) int {
+					var out [][]byte
+					if c.Guard(api+"(measure)", func() { out = opts.build().Payload(uint16(mtu), b) }) || len(out) == 0 {
+						return -1
+					}
+					return len(out[len(out)-1])
+				}
+				if _, s2, ok := genAV1Aimed(t, mtu, measure); ok {
+					media = s2
+					c.Probe("aimed-free-space")
+				}
+			}
 		case 1:
 			media = t.Bytes(t.Intn(3 * genMTU))
 			for i := 0; i+4 < len(media) && t.Chance(1, 2); i += 1 + t.Intn(40) {
